@@ -9,3 +9,7 @@ def run(ctx):
     n = 3 if ctx.quick else 4
     tokenizer(ctx, n, ALL, f'full alphabet n={n}')
     read_input(ctx, ['read.one_context_per_value'])
+    from ..kani import kani_family
+    ctx.run.bounds['from_f64'] = 'every finite f64 bit pattern'
+    kani_family(ctx, 'value.from_f64', 'From<f64> for JsonValue: an integral double in [0, 2^64) becomes Positive with that value, in (-2^63, 0) Negative, anything else stays the same Float',
+                [('k_from_f64_normalises', 'from-f64', 'From<f64> normalisation')], ['json_value.rs'], timeout_s=600)
